@@ -42,8 +42,10 @@ def gen_case(seed, tier, index=0):
     # crash placement: the n-th write boundary among the files of one class (the instance description takes thousands of
     # small writes per rewrite, the status and listing files a dozen: uniform placement over all boundaries would hardly
     # ever land in the latter)
-    cls = rr.choice(['outdir', 'outdir', 'conf', 'conf', 'any'])
-    if cls == 'outdir':
+    cls = rr.choice(['outdir', 'outdir', 'conf', 'conf', 'any', 'commit', 'commit'])
+    if cls == 'commit':  # the n-th rename/replace/remove: the instants at which a new version becomes the file
+        n = rr.randint(1, rr.choice([6, 20, 60]))
+    elif cls == 'outdir':
         n = rr.randint(1, rr.choice([30, 150, 600]))
     elif cls == 'conf':
         n = int(10 ** rr.uniform(0, 3.7))
@@ -106,7 +108,7 @@ def run_case(case, schedule, opts):
 
         outdir = os.path.realpath(exp.instanceDirectory.outputDir)
         confdir = os.path.realpath(os.path.join(inst, 'conf'))
-        per_class = {'outdir': 0, 'conf': 0, 'any': 0, 'other': 0}
+        per_class = {'outdir': 0, 'conf': 0, 'any': 0, 'other': 0, 'commit': 0}
         want = case.get('crash_class', 'any')
 
         def hook(kind, path):
@@ -114,7 +116,11 @@ def run_case(case, schedule, opts):
             cls = 'outdir' if d == outdir else 'conf' if d == confdir else 'other'
             per_class[cls] += 1
             per_class['any'] += 1
-            if not crashed_at and (cls == want or want == 'any') and per_class[want] == case['crash_at']:
+            commit = kind in ('rename', 'replace', 'remove')
+            if commit:
+                per_class['commit'] += 1
+            if not crashed_at and (cls == want or want == 'any' or (want == 'commit' and commit)) \
+                    and per_class[want] == case['crash_at']:
                 it = max([e2.iteration_of(n) or 0 for n in exp.graph.nodes] or [0])
                 fname = os.path.basename(path)
                 fname = 'flowir_instance.yaml.tmp' if fname.startswith('flowir_instance.yaml.') else \
